@@ -101,3 +101,97 @@ claim(
     "Not decided: the groups computed by _split_constraints (graph computation on runtime data) and composite merge "
     "bookkeeping beyond pairing order. " + GENERIC_NOTE,
 )
+claim(
+    "C01",
+    "table agreement over the op registry and the statically re-derived backend dispatch tables; guard dominance on "
+    "op-shape facts (AST)",
+    "Decides that the tables every construction, fold and translation goes through agree end to end: operator "
+    "bindings per AST class (incl. reflected forms), opposites/inverse tables, the Not-rewrite arms, variadic "
+    "reducers, the Z3 constructor and operand order of every op, the concrete operator/signedness/zero-divisor "
+    "table, and If()'s inline rewrites.",
+    "Not decided: equivalence of the arithmetic rewrites in simplifications.py for every width and constant (needs a "
+    "decision procedure - another family); the three confirmed wrong rewrites ((x<<255)<<1, ((y&3)^3)==0, "
+    "~If(c,1,0) at 8 bits) are arithmetic facts these rules cannot see. " + GENERIC_NOTE,
+)
+claim(
+    "C02",
+    "table agreement and parameter-use dependence on the float handlers (AST)",
+    "Decides the rounding-mode tables (decimal and Z3, round trip), that every concrete handler of an op with a "
+    "rounding mode uses it (or refuses to fold), that comparisons/predicates/arithmetic delegate to the operator of "
+    "the same meaning in operand order, and that the fpToFP/fpToIEEEBV cancellations are guarded by sort/width "
+    "agreement.",
+    "Not decided: numerical results (0/0, double rounding, subnormals). " + GENERIC_NOTE,
+)
+claim(
+    "C03",
+    "taint dependence, exhaustiveness and table agreement on the string handlers (AST)",
+    "Decides that no caller string reaches a regex pattern or int() unguarded, that every string op has a concrete "
+    "and a Z3 handler of the declared arity with value-based equality, that each handler computes the reference "
+    "operation with operands in the positions the Python/Z3 function expects, and that strings are encoded/decoded "
+    "at the Z3 text boundary.",
+    "Not decided: index-arithmetic corner cases (IndexOf with empty pattern past the end, Substr clipping) and the "
+    "correctness of the encoding itself. " + GENERIC_NOTE,
+)
+claim(
+    "C04",
+    "op-shape fact dominance with access-path aliasing and dispatch-seeded entry facts; exception-class and "
+    "shift-bound rules (AST)",
+    "Decides that no comparison in Boolean context can be applied to an AST argument (every `P.args[i]` tested for "
+    "truth is dominated by `P.op in S` with slot i primitive), that the concrete folding code raises only claripy "
+    "errors and asserts nothing about operand values, that operand-derived left shifts are bounded by the width, "
+    "and (shared) that no caller string reaches a regex pattern.",
+    "Not decided: time and memory in general; implicit exceptions of builtins are not modelled. " + GENERIC_NOTE,
+)
+claim(
+    "C05",
+    "def-use agreement in Base.__new__, who-may-construct / who-may-override rules, width-table agreement (AST)",
+    "Decides that what is hashed is what is stored and that symbolic/variables/depth derive from the children of "
+    "those args, that make_like's metadata-copying fast path is reachable only with the receiver's own op/args, "
+    "that explicit metadata overrides happen only at sanctioned sites with the right values, that raw constructions "
+    "pass a length, and that every sized op declares the width function its meaning requires.",
+    "Not decided: that a concrete value is the value denoted (that is C01). " + GENERIC_NOTE,
+)
+claim(
+    "C06",
+    "field-set agreement, who-may-allocate, guard symmetry and taint (builtin hash) rules on the hash-cons "
+    "machinery (AST)",
+    "Decides that the identity fields agree across _calc_hash/_ast_serialize/__reduce__/_d, that AST objects are "
+    "allocated only after a table lookup under the same hash, that secondary caches are written under the guard "
+    "they are read under, and that nothing feeding the structural hash goes through builtin hash().",
+    "Assumed: collision freedom of the 64-bit blake2b digest. " + GENERIC_NOTE,
+)
+claim(
+    "C07",
+    "must-pass-through (_handle_annotations) and dependence rules on every rewriting path (AST)",
+    "Decides that every rewrite result (simplifier, eager fold, If() shortcuts) passes through _handle_annotations "
+    "or keeps all arguments whole, that _handle_annotations vetoes on lost non-eliminatable annotations and "
+    "relocates relocatable ones, that Base.__new__ inherits children's annotation sets before hashing, that "
+    "flattening refuses non-relocatable annotations, that explicit simplification re-attaches annotations, and that "
+    "solvers simplify only constraints without SimplificationAvoidanceAnnotation.",
+    "Not decided: behaviour of user-defined relocate(). " + GENERIC_NOTE,
+)
+claim(
+    "C08",
+    "who-may-consult, table and guard-dominance rules on the substitution / ITE utilities (AST)",
+    "Decides that identical() is not answered by an approximating backend, that the switch encodings pair "
+    "conditions and branches correctly, that a unique-element selection is dominated by a uniqueness guard, and that "
+    "replace/replace_dict type-check, rebuild with the parent's own op and memoise under the parent's hash.",
+    "Not decided: value-level equivalence of the outputs of excavate/burrow/chop/get_bytes. " + GENERIC_NOTE,
+)
+claim(
+    "C09",
+    "round-trip closure of the forward Z3 translation against op_map/op_type_map (table agreement, AST)",
+    "Decides that the decl kind produced by each op's Z3 translation maps back to that op with the right AST "
+    "class, that ops with non-AST parameters have a recovering arm, that rounding modes round-trip, and that "
+    "ConstrainedFrontend.simplify keeps every constraint and is the only simplification site.",
+    "Trusted: that Z3's simplifier preserves meaning; the frozen table of decl kinds per constructor. Not decided: "
+    "which other kinds Z3's simplifier may emit. " + GENERIC_NOTE,
+)
+claim(
+    "C10",
+    "polarity table, fallback-value and memo-guard rules (AST)",
+    "Decides that every cheap truth check tests the constant of its own name, that every non-backend exit returns "
+    "False, that Backend.is_true/is_false memoise only extra-constraint-free answers under the structural hash with a "
+    "literal-False cross entry, and that the Z3 checks do not depend on solver state.",
+    "Trusted: that z3.simplify reaches `true` only for valid formulas. " + GENERIC_NOTE,
+)
